@@ -52,11 +52,15 @@ def totality_ovf(ctx):
         table = {fn: list(rows) for fn, rows in ctx.table("total").items()}
         for fn, rows in ctx.table("overflow").items():
             table.setdefault(fn, []).extend(rows)
-        _T[k] = total.Totality(ctx.prog(OVF_CONFIG), table, cfg_set=ctx.cfgs())
+        # arithmetic-overflow assertions inside the division / GCD kernels (reciprocal Newton steps, quotient
+        # estimates, Lehmer cofactors) are value contracts of C14 / C12 and stay trusted leaves in this clause;
+        # their bounds checks and slice ranges ARE inventoried by R-TOTAL proper (release MIR, D-lin)
+        _T[k] = total.Totality(ctx.prog(OVF_CONFIG), table, cfg_set=ctx.cfgs(),
+                               implicit_scope=lambda b: not b["file"].startswith(("src/algorithms/div", "src/algorithms/gcd")))
     return _T[k]
 
 
-def run_overflow(ctx, spec, floor, label=""):
+def run_overflow(ctx, spec, floor, label="", discharged_floor=10):
     """The overflow-checks clause: in a build with arithmetic overflow checks (every debug build) no total entry
     point reaches an undischarged `attempt to <op> with overflow` assertion outside the kernels."""
     rep = Report("R-TOTAL/overflow-checks", "with -C overflow-checks=on (debug builds) no total entry point reaches an "
@@ -104,7 +108,7 @@ def run_overflow(ctx, spec, floor, label=""):
     rep.analysed = {"build_config": OVF_CONFIG, "entries": len(entries), "configurations": len(cfgs),
                     "overflow_assertions_discharged_by_intervals": n_sites, "label": label}
     rep.floor("entries-ovf" + ("-" + label if label else ""), len(entries), floor)
-    rep.floor("overflow-assertions-discharged", n_sites, 10)
+    rep.floor("overflow-assertions-discharged", n_sites, discharged_floor)
     return rep
 
 
@@ -140,6 +144,10 @@ def run(ctx, spec, floor, config="all", label="", own_only=False):
             r = d["r"]
             if r.precond is not None and len(r.chain) == 1:
                 T.table_used.add((r.precond[0], r.precond[1].get("kind"), r.precond[1].get("what")))
+                continue
+            if r.preds and len(r.chain) == 1 and r.origin_fn == e:
+                # the entry's own documented panic, exported by a reviewed row as a predicate its callers must
+                # establish (algorithms::div: "Panics if divisor is zero"): a precondition of the entry itself
                 continue
             n_res += 1
             cf = ", ".join("(%d,%d)" % c if c else "-" for c in d["cfgs"][:8]) + ("..." if len(d["cfgs"]) > 8 else "")
